@@ -83,6 +83,21 @@ def text_only_strategy():
     return H.hash_with_depth_int(_text_only_int)
 
 
+class DepthDependent:
+    """hand-written strategy whose values depend on the DEPTH it is asked for as well as on the key (hf(key, 1)[0] != hf(key, 8)[0]).
+    Legitimate for a structure used on its own, which always asks at its own depth; not prefix-stable, so no hash list computed for
+    another depth may be handed to such a structure (the harness checks `depth_dependent` before it does that)."""
+
+    depth_dependent = True
+
+    def __call__(self, key, depth=1):
+        kb = to_bytes(key)
+        return [int.from_bytes(hashlib.blake2b(kb, digest_size=8, person=b"d%dI%d" % (depth, i)).digest(), "little") for i in range(depth)]
+
+    def __repr__(self):
+        return "DepthDependent()"
+
+
 def decorator_strategies():
     from probables import hashes as H
 
